@@ -19,6 +19,10 @@ pub struct GlobalConstantPropagator {
     cursor: usize,
     fn_depth: usize,
     stats: OptimizationStats,
+    // session unit: a top-level constant may be rebound by a later unit before the body of a
+    // function or lambda of this unit runs (depth of the walk inside such bodies)
+    top_level_open: bool,
+    deferred: usize,
 }
 
 impl GlobalConstantPropagator {
@@ -31,6 +35,8 @@ impl GlobalConstantPropagator {
             cursor: 0,
             fn_depth: 0,
             stats: OptimizationStats::new(),
+            top_level_open: false,
+            deferred: 0,
         }
     }
 }
@@ -69,5 +75,9 @@ impl OptimizationPass for GlobalConstantPropagator {
         }
 
         self.stats.clone()
+    }
+
+    fn set_top_level_open(&mut self, open: bool) {
+        self.top_level_open = open;
     }
 }
